@@ -176,13 +176,27 @@ def rule_X4(ctx) -> None:
         v = p.value
         if p.outcome == "return" and v is not None and v[0] == "call" and dotted(v[1]) == "get_type_hints" and len(v[2]) >= 2:
             ns = v[2][1]
-            if show(ns) == "sys.modules[cls.__module__].__dict__":
+            if show(ns) in ("sys.modules[cls.__module__].__dict__", "vars(sys.modules[cls.__module__])"):
                 ok = True
     if ok:
         ctx.proved("X4", "_type_hints:defining-module-namespace", mod.loc(fn))
     else:
         ctx.refuted("X4", "_type_hints:defining-module-namespace", "other-namespace", mod.loc(fn),
                     "forward-reference strings are not resolved in sys.modules[cls.__module__].__dict__: references to aliases imported at the bottom of the generated module do not resolve")
+
+
+def _same_namespace(fn: ast.AST, g: ast.AST, l: ast.AST) -> bool:
+    """the two namespace arguments denote the same object: the same local name, or the same expression of the module's dict"""
+    if isinstance(g, ast.Name) and isinstance(l, ast.Name):
+        return g.id == l.id
+    def norm(e: ast.AST) -> str:
+        if isinstance(e, ast.Name):
+            binds = [a.value for a in ast.walk(fn) if isinstance(a, ast.Assign) and len(a.targets) == 1 and isinstance(a.targets[0], ast.Name) and a.targets[0].id == e.id]
+            if len(binds) == 1:
+                return norm(binds[0])
+        t = ast.unparse(e)
+        return t[5:-1] + ".__dict__" if t.startswith("vars(") and t.endswith(")") else t
+    return not isinstance(l, (ast.Dict, ast.Constant)) and norm(g) == norm(l) and "dict(" not in ast.unparse(l) and ".copy()" not in ast.unparse(l)
 
 
 def rule_X7(ctx) -> None:
@@ -203,7 +217,12 @@ def rule_X7(ctx) -> None:
                         f"`{ast.unparse(c)}` passes no local namespace: typing then evaluates the annotation strings with vars(cls) as locals, so a field whose name equals the alias "
                         "of an imported package (descendant packages are imported under their plain name: `from . import items`) resolves to the field's default object instead of the module",
                         "message Order { shop.items.Item items = 1; }")
-        elif "vars(" in ast.unparse(local) or "__dict__" in ast.unparse(local) and "module" not in ast.unparse(local):
+        elif len(c.args) >= 2 and _same_namespace(fn, c.args[1], local):
+            ctx.refuted("X7", "_type_hints:explicit-local-namespace", f"localns is globalns ({ast.unparse(local)})", mod.loc(c),
+                        "the module namespace is passed as both global and local namespace: when localns is globalns typing caches the value a ForwardRef evaluated to, and because "
+                        "subscripted generics (List[\"pkg__.T\"], Dict[str, ...], Optional[...]) are cached process-wide by their text, a second module that spells a reference the same way "
+                        "gets the first module's class", "two generated modules with the same quoted reference inside List[...] that denote different classes")
+        elif ("vars(" in ast.unparse(local) and "modules" not in ast.unparse(local)) or "__dict__" in ast.unparse(local) and "module" not in ast.unparse(local):
             ctx.refuted("X7", "_type_hints:explicit-local-namespace", ast.unparse(local), mod.loc(c), "the class namespace is passed as local namespace: field defaults shadow import aliases")
         else:
             ctx.proved("X7", "_type_hints:explicit-local-namespace", mod.loc(c), ast.unparse(local))
